@@ -325,20 +325,20 @@ func scenarioConfigs() []*config {
 		{
 			Name: "S16c-idle-timeout-vs-handover-retry", Props: []string{"C01", "C02", "C06"},
 			Bounds: tiny, Shards: 1,
-			Doc:         "as S16b with WorkerTaskRetryCount=1 and a worker that may re-request the task it was given once (restart) before it completes it: the task must survive exactly one re-request per assignment",
+			Doc:         "as S16b with WorkerTaskRetryCount=1 and a worker that may re-request the task it was given (restart; plain or with prefer_being_idle) before it completes it: the task must survive exactly one re-request per assignment",
 			Predeclared: pre0, MaxTicks: 3, IdleSync: 2,
-			Workers: []workerSpec{{Name: "w1", MaxCalls: 5, Busy: []string{"ok", "idle"}}},
+			Workers: []workerSpec{{Name: "w1", MaxCalls: 5, Busy: []string{"ok", "idle", "pidle"}}},
 			Clients: []clientSpec{{Name: "c1", Calls: []string{"sleep 2", "exec A i1"}}},
 		},
 		{
 			Name: "S11d-background-waiter", Props: []string{"C02", "C06", "C07"},
-			Doc:         "predeclared size classes {1,2}, the learner always asks for a background run; the worker holds every task for 1 tick; at any idle moment a second client looks the background learning operation up with ListOperations and attaches to it by name with WaitExecution (it may leave again): the background task completes while that waiter is attached, or before it attaches, or after it left; in the end nothing may be retained",
+			Doc:         "predeclared size classes {1,2}, the learner always asks for a background run; the worker holds every task for 1 tick; at any idle moment a second client looks the background learning operation up with ListOperations and attaches to it by name with WaitExecution (it may leave again): the background task completes (or fails because the worker vanishes) while that waiter is attached, or before it attaches, or after it left; in the end nothing may be retained",
 			Predeclared: pre12, MaxBackground: 1, MaxTicks: 3, BackgroundAlways: true,
 			Clients: []clientSpec{
 				{Name: "c1", Calls: []string{"exec A i1"}},
 				{Name: "c2", Stage: 1, Calls: []string{"waitbg"}, Cancels: 1},
 			},
-			Workers: []workerSpec{{Name: "w1", SizeClass: 1, MaxCalls: 3, Busy: []string{"sleep1", "ok"}}},
+			Workers: []workerSpec{{Name: "w1", SizeClass: 1, MaxCalls: 3, Busy: []string{"sleep1", "ok", "vanish"}}},
 		},
 		{
 			Name: "S12-crash-points", Props: []string{"C01", "C02", "C06", "C07"},
